@@ -19,6 +19,7 @@
 #define PTG_READ  1
 #define PTG_WRITE 2
 #define PTG_RW    3
+#define PTG_NEW   4        /* or-ed in when the flow's active input is NEW: the body zeroes the fresh copy before use */
 
 /* --- called from generated BODYs ------------------------------------------------------------------- */
 /* begin of body: class id, number of locals, then ALL locals of the class in declaration order */
